@@ -64,6 +64,16 @@ CHECKS = {
              'segment symbolic (string over {a, .}, length 1..2) so that dot-segment recognition is decided by the solver through the real parser.',
         note='Trusted: CrossHair/z3, the RFC oracle. Outside: longer references, authority-only references, defined-but-empty query/fragment, non-ASCII segments.',
         ref='C07'),
+    'C08': dict(
+        technique='bounded symbolic execution (CrossHair/z3) of the real remap/research/get_path: tree shape, node kinds, one alias/cycle edge and '
+                  'the visit decision are solver-chosen; oracle = recursive rebuild with id-memo',
+        text='Every structure of <= 4 nodes over leaf/list/dict/tuple/set/frozenset (every parent assignment; <= 3 nodes with one extra alias '
+             'edge including back edges = cycles through lists/dicts) is remapped with the default callbacks (equal copy, no mutable container '
+             'shared, input untouched, sharing preserved, research paths retrievable) and with a one-cell decision-table visit function '
+             '(keep/drop/replace/rename by depth class and value class) and compared - with identity-aware shapes - to the recursive rebuild. '
+             'Path trees exhausted (infeasible shapes discarded as assumptions). Bounded model checking.',
+        note='Trusted: CrossHair/z3 exhaustion, the oracle. Outside: custom enter/exit, user container classes, larger shapes, cycles through tuples.',
+        ref='C08'),
     'C09': dict(
         technique='bounded symbolic execution (CrossHair/z3): chunk_ranges on symbolic integers (offset unbounded); sequence helpers with '
                   'solver-decided lengths, element-class patterns, sizes, counts, maxsplit and key-equality patterns; oracles str.split/str.strip, slicing',
